@@ -1442,7 +1442,8 @@ impl Exec {
             Err((c, l, i)) => ("err", *c, l.clone(), *i),
         };
         let err = if r == "ok" { "".to_string() } else { err_name(code, &label) };
-        json!({"i": self.n, "ev": op, "a": a, "res": r, "code": code, "err": err, "label": label, "failed_ix": fidx,
+        let amt = a.get("amount").and_then(parse_i128).unwrap_or(0);
+        json!({"i": self.n, "ev": op, "a": a, "amt": big_i(amt), "res": r, "code": code, "err": err, "label": label, "failed_ix": fidx,
                "ts": big_i(self.env.world.clock.unix_timestamp as i128), "chg": chg})
     }
 
